@@ -52,6 +52,10 @@ def cases(ctx, quick):
     for kind in ("match", "generated", "badresult", "nomatch", "replaceerr"):
         for i, c in enumerate(fr.CONTENT[kind] + ([fr.CRLF_MATCH] if kind == "match" else [])):
             out.append(dict(id="kind-%s-%d" % (kind, i), patch=fr.PATCH, src=c, api_out=None, api_err=None))
+    # a line longer than any line buffer (64 KiB is the default of bufio.Scanner), LF and CRLF
+    long_line = "package a\n\nvar s = \"" + "x" * 70000 + "\"\n\nfunc f() {\n\tfoo(1)\n}\n"
+    out.append(dict(id="kind-match-longline", patch=fr.PATCH, src=long_line, api_out=None, api_err=None))
+    out.append(dict(id="kind-match-longline-crlf", patch=fr.PATCH, src=long_line.replace("\n", "\r\n"), api_out=None, api_err=None))
     return out
 
 
